@@ -20,7 +20,8 @@ RULE = ("histories through the public cesium API: 1-3 index channels x 0-3 data 
         "writer start 0/1/5 ns before the first sample), frames of 1-8 samples, spacing {1,2,7,1000} ns, explicit commits at "
         "random points or auto-commit, uncommitted tails, file-size caps {default,40,64,100,200,1000} B forcing rollover, "
         "groups that do not write their index, zero-length samples on string/json channels (preferably last in a frame/domain), "
-        "Reopen; 10% with one illegal step; DB.Read of 1-3 channels interleaved with "
+        "Reopen; 10% with one illegal step; 15% with one scripted short write (a data-file Write stores a prefix and fails) "
+        "followed by the remaining sessions on the same files; DB.Read of 1-3 channels interleaved with "
         "the history (also while a writer holds uncommitted data) and 4-10 final reads repeated after Close+Open; range ends "
         "from sample stamps, +-1, writer starts, 0, MAX. Non-trivial = >=2 committed sessions or a rollover-size cap, and a "
         "read whose range end lies strictly between two returned/stored samples or that returns >=2 series; distinct by hash.")
@@ -72,6 +73,8 @@ def gen_read(rng, setup, pos, edges=None):
 def gen_case(rng, tier):
     malformed = rng.random() < 0.1
     setup = cesgen.gen_setup(rng, malformed=malformed)
+    if not malformed and rng.random() < 0.15:
+        cesgen.add_short_write(rng, setup)
     pos, st = cesgen.positions(setup)
     edges = cesgen.commit_edges(setup)
     script = setup["script"]
@@ -94,6 +97,11 @@ def harness_violation(case, r):
         return "panic in the real reader/writer: " + r["panic"][:300]
     if r.get("fatal"):
         return "harness could not run the case: " + r["fatal"][:300]
+    for sect in ("outs", "final_a", "final_b"):
+        for n, o in enumerate(r.get(sect) or []):
+            if o.get("late") is not None:
+                return ("the frame returned by DB.Read #%d (%s) no longer carries what it carried when it was returned: "
+                        "then %s, at the end of the case %s" % (n, sect, json.dumps(o.get("read"))[:200], json.dumps(o["late"])[:200]))
     return None
 
 
@@ -143,6 +151,8 @@ def histogram(case, r):
         ks.append("op=" + o["op"])
         if x["err"]:
             ks.append("%s_err=%d" % (o["op"], x["err"]))
+        if o.get("fault"):
+            ks.append("short_write_scripted")
     for o, x in _reads(case, r):
         n = sum(len(cr["ser"]) for cr in x.get("read") or [])
         ks.append("read_series=%d" % min(n, 4))
